@@ -185,6 +185,12 @@ def _validate1(ck, sw, name, beh, label, want_sample=False):
     summ, _ = vlib.run_replay(["wsdec", "-in", beh, "-out", trace])
     bads, r = vlib.validate_trace(sw, "WsDecMonTrace", "WsDecMonTrace.cfg", trace, timeout=1500,
                                   parallel=max(2, vlib.NCPU // (3 if ck.tier == "quick" else 2)))
+    obs = ck.cov.setdefault("observed_counts", {})
+    with open(trace) as tf:
+        text = tf.read()
+    for pat in ('"kind":"frame"', '"kind":"needmore"', '"kind":"toobig"', '"kind":"error"', '"kind":"panic"'):
+        obs[pat] = obs.get(pat, 0) + text.count(pat)
+    del text
     ck.cov["evaluations"] += summ["scenarios"]
     ck.cov["distinct_nontrivial"] += summ["nontrivial"]
     ck.cov["traces_validated_against_impl"] += summ["scenarios"] - len({b[0] for b in bads})
